@@ -289,13 +289,13 @@ def work(t):
   confirmed = None
   for r in P.results:
     r = dict(r)
-    if r['status'] == 'sat' and r.get('kind', 'core') == 'core':
+    if r['status'] in ('sat', 'unknown') and r.get('kind', 'core') == 'core':
       if confirmed is None:
         confirmed = confirm(t) or False
       if confirmed:
         r['status'] = 'violation'
         viol.append(dict(key=confirmed['key'], what=confirmed['what'], replay=confirmed['replay']))
-      else:
+      elif r['status'] == 'sat':
         r['status'] = 'spurious'
         r['note'] = 'candidate counterexample did not reproduce on the real code'
     res.append(r)
@@ -309,7 +309,7 @@ REPLAY_SRC = r'''
 import os, sys, json
 os.environ['JAX_PLATFORMS'] = 'cpu'
 import numpy as np, jax, jax.numpy as jnp
-sys.path.insert(0, '/verif'); sys.path.insert(0, '/repo')
+sys.path.insert(0, '/verif'); sys.path.insert(0, os.environ.get('VP_REPO', '/repo'))
 from vp import dsh
 from vp.props import c03
 t = json.loads(sys.argv[1]); seed = int(sys.argv[2])
